@@ -1,6 +1,7 @@
 package main
 
 import (
+	"strings"
 	"fmt"
 	"math"
 	"math/rand/v2"
@@ -70,10 +71,23 @@ func (s *Sim) SendTx(acc *Account, tag string, msgs ...sdk.Msg) *TxSpec {
 		}
 	}
 	// fault: abort the transaction at an arbitrary store access
-	if g := s.Cfg.Faults.GasStarve; g > 0 && r.Float64() < g {
-		t.Gas = uint64(60_000 + r.IntN(600_000))
-		t.Tag += "+gasstarve"
-		s.Stats.Inc("fault/gas_limit_drawn_low", 1)
+	if g := s.Cfg.Faults.GasStarve; g > 0 {
+		if strings.HasPrefix(tag, "bot/") {
+			g *= 3 // keeper bots run loops that log-and-continue on per-item errors: the interesting place to run dry
+		}
+		if r.Float64() < g {
+			t.Gas = uint64(60_000 + r.IntN(600_000))
+			// usually: uniformly inside what this message type needed the last time it succeeded,
+			// so the abort lands somewhere in the handler rather than before or after it
+			if len(msgs) > 0 {
+				if seen := s.gasSeen[sdk.MsgTypeURL(msgs[0])]; seen > 70_000 && r.IntN(4) != 0 {
+					t.Gas = uint64(60_000 + r.Int64N(seen-60_000))
+					s.Stats.Inc("fault/gas_limit_drawn_inside_typical_execution", 1)
+				}
+			}
+			t.Tag += "+gasstarve"
+			s.Stats.Inc("fault/gas_limit_drawn_low", 1)
+		}
 	}
 	if q := s.Cfg.Faults.StaleSeq; q > 0 && r.Float64() < q {
 		t.SeqMode = "stale"
